@@ -502,7 +502,7 @@ Definition msg_stable_create (c : cfg) (s : state) (from app epid amt : Z) : out
               if tout =? 0 then Err E_INVALID else mint a (ep_out ep) tout)
          else Ok s1) (fun s2 =>
   obind (if (ep_ddf ep =? 0) && (amt >? 0)
-         then send s2 VAULT from (ep_out ep) amt     (* as coded: msg.Amount, not tokenOutAmount *)
+         then send s2 VAULT from (ep_out ep) tout    (* tokenOutAmount since fix C02-F1 (before: msg.Amount) *)
          else pay_out s2 from (ep_out ep) tout (ep_ddf ep)) (fun s3 =>
   let id := sid s3 + 1 in
   let s4 := set_svaults s3 (put_sv (svaults s3) (mkSV id app epid amt tout)) in
@@ -758,19 +758,6 @@ Definition holds_C02_step (c : cfg) (s : state) (o : op) (s' : state) : bool :=
       forallb (fun e => sup s' (ep_out e) =? sup s (ep_out e)) (epairs c)
   | _ => true
   end.
-
-(* C02-F1: the stable-mint create zero-fee branch pays msg.Amount instead of tokenOutAmount *)
-Definition kf_C02_1 (c : cfg) (o : op) : bool :=
-  match o with
-  | StableCreate f a e m =>
-      match get_ep c e with
-      | Some ep => (ep_ddf ep =? 0) &&
-                   negb (match other_token (ep_dec_in ep) m (ep_dec_out ep) with Some t => t =? m | None => true end)
-      | None => false end
-  | _ => false
-  end.
-(* the same class seen from C01: the difference stays in (or is taken out of) vault custody *)
-Definition kf_C01_1 (c : cfg) (ops : list op) : bool := existsb (kf_C02_1 c) ops.
 
 (* ---------- C03 ---------- *)
 (* the three Quo roundings made explicit: an accepted ratio r >= min_cr gives, on the exact
